@@ -132,142 +132,167 @@ func (c *Ctx) ruleFactExport() {
 			continue
 		}
 		n++
-		var exports []ssa.CallInstruction
-		allInstrs(a.RunSSA, func(b *ssa.BasicBlock, ins ssa.Instruction) {
-			if ci, ok := ins.(ssa.CallInstruction); ok && c.passFieldCall(ci) == "ExportPackageFact" {
-				exports = append(exports, ci)
+		runBody := a.RunSSA
+		var pins pinMap
+		findExports := func(f *ssa.Function) []ssa.CallInstruction {
+			var out []ssa.CallInstruction
+			allInstrs(f, func(b *ssa.BasicBlock, ins ssa.Instruction) {
+				if ci, ok := ins.(ssa.CallInstruction); ok && c.passFieldCall(ci) == "ExportPackageFact" {
+					out = append(out, ci)
+				}
+			})
+			return out
+		}
+		exports := findExports(runBody)
+		if len(exports) == 0 {
+			// Run hands its whole body to a shared helper (`return runChecker(pass, ...)`): judge the helper in the
+			// context of this call
+			var deleg []*ssa.Call
+			allInstrs(a.RunSSA, func(b *ssa.BasicBlock, ins ssa.Instruction) {
+				if call, ok := ins.(*ssa.Call); ok {
+					if h := call.Call.StaticCallee(); h != nil && P.IsProductFunc(h) && !P.isAnchor(h) && len(h.Blocks) > 0 && len(findExports(h)) > 0 {
+						deleg = append(deleg, call)
+					}
+				}
+			})
+			if len(deleg) == 1 && len(a.RunSSA.Blocks) == 1 {
+				runBody = deleg[0].Call.StaticCallee()
+				pins = pinMap{runBody: deleg[0]}
+				exports = findExports(runBody)
 			}
-		})
+		}
 		if len(exports) == 0 {
 			c.fail("FACT-EXPORT", a.VarName, P.Pos(a.Pos), "analyzer declares FactTypes but Run never calls pass.ExportPackageFact: importers see no annotations of this package")
 			continue
 		}
-		for _, ex := range exports {
-			where := P.Pos(ex.Pos())
-			arg := ex.Common().Args[0]
-			// type
-			okType := false
-			for _, ft := range a.FactTypes {
-				if P.RootsAll(arg, func(r ssa.Value) bool { return types.Identical(r.Type(), ft) }) {
-					okType = true
-				}
-			}
-			c.check(okType, "FACT-EXPORT/TYPE", a.VarName, where, "exported fact type is in FactTypes", "exported fact has a type that is not in this analyzer's FactTypes (the driver panics / the fact is never imported): "+typeStr(arg.Type()))
-			// value: conversion of the AnnotationReader result (or the reader's own ReadAllAnnotations result)
-			okVal := P.RootsAll(arg, func(r ssa.Value) bool {
-				al, ok := r.(*ssa.Alloc)
-				if !ok {
-					return false
-				}
-				vals, _, _ := P.CellStores(al)
-				if len(vals) == 0 {
-					return false
-				}
-				good := func(d string) bool {
-					fromReader := strings.HasPrefix(d, "typeassert(lookup(field(") && strings.Contains(d, "global(analyzer.AnnotationReader)); annotations.PackageAnnotations)")
-					fromRead := strings.HasPrefix(d, "call(annotations.ReadAllAnnotations;")
-					return fromReader || fromRead
-				}
-				for _, v := range vals {
-					if good(P.Desc(v)) {
-						continue
+		P.PinnedAll(pins, func() {
+			for _, ex := range exports {
+				where := P.Pos(ex.Pos())
+				arg := ex.Common().Args[0]
+				// type
+				okType := false
+				for _, ft := range a.FactTypes {
+					if P.RootsAll(arg, func(r ssa.Value) bool { return types.Identical(r.Type(), ft) }) {
+						okType = true
 					}
-					// the value half of a (value, ok) accessor whose ok half guards the export: the alternatives
-					// that come with a possibly-true ok
-					for {
-						if x, ok := v.(*ssa.ChangeType); ok {
-							v = x.X
+				}
+				c.check(okType, "FACT-EXPORT/TYPE", a.VarName, where, "exported fact type is in FactTypes", "exported fact has a type that is not in this analyzer's FactTypes (the driver panics / the fact is never imported): "+typeStr(arg.Type()))
+				// value: conversion of the AnnotationReader result (or the reader's own ReadAllAnnotations result)
+				okVal := P.RootsAll(arg, func(r ssa.Value) bool {
+					al, ok := r.(*ssa.Alloc)
+					if !ok {
+						return false
+					}
+					vals, _, _ := P.CellStores(al)
+					if len(vals) == 0 {
+						return false
+					}
+					good := func(d string) bool {
+						fromReader := strings.HasPrefix(d, "typeassert(lookup(field(") && strings.Contains(d, "global(analyzer.AnnotationReader)); annotations.PackageAnnotations)")
+						fromRead := strings.HasPrefix(d, "call(annotations.ReadAllAnnotations;")
+						return fromReader || fromRead
+					}
+					for _, v := range vals {
+						if good(P.Desc(v)) {
 							continue
 						}
-						if x, ok := v.(*ssa.Convert); ok {
-							v = x.X
-							continue
+						// the value half of a (value, ok) accessor whose ok half guards the export: the alternatives
+						// that come with a possibly-true ok
+						for {
+							if x, ok := v.(*ssa.ChangeType); ok {
+								v = x.X
+								continue
+							}
+							if x, ok := v.(*ssa.Convert); ok {
+								v = x.X
+								continue
+							}
+							if w := P.throughParams(v); w != v {
+								v = w
+								continue
+							}
+							if u, ok := v.(*ssa.UnOp); ok && u.Op == token.MUL {
+								if a, ok := u.X.(*ssa.Alloc); ok {
+									if cv, _, _ := P.CellStores(a); len(cv) == 1 {
+										v = cv[0]
+										continue
+									}
+								}
+							}
+							break
 						}
-						if w := P.throughParams(v); w != v {
-							v = w
-							continue
+						vex, ok := v.(*ssa.Extract)
+						if !ok || vex.Tuple.Referrers() == nil {
+							return false
 						}
-						if u, ok := v.(*ssa.UnOp); ok && u.Op == token.MUL {
-							if a, ok := u.X.(*ssa.Alloc); ok {
-								if cv, _, _ := P.CellStores(a); len(cv) == 1 {
-									v = cv[0]
-									continue
+						var okEx *ssa.Extract
+						for _, rr := range *vex.Tuple.Referrers() {
+							if e2, ok := rr.(*ssa.Extract); ok && e2 != vex {
+								if b, isB := e2.Type().Underlying().(*types.Basic); isB && b.Kind() == types.Bool {
+									okEx = e2
 								}
 							}
 						}
-						break
-					}
-					vex, ok := v.(*ssa.Extract)
-					if !ok || vex.Tuple.Referrers() == nil {
-						return false
-					}
-					var okEx *ssa.Extract
-					for _, rr := range *vex.Tuple.Referrers() {
-						if e2, ok := rr.(*ssa.Extract); ok && e2 != vex {
-							if b, isB := e2.Type().Underlying().(*types.Basic); isB && b.Kind() == types.Bool {
-								okEx = e2
+						if okEx == nil || !flagDominates(okEx, ex.Block()) {
+							return false
+						}
+						n := 0
+						for _, pc := range c.pairCases(vex, okEx, nil, nil, 0) {
+							if cv, isC := constBool(pc.E); isC && !cv {
+								continue
+							}
+							n++
+							var d string
+							P.PinnedAll(pc.Pins, func() { d = P.Desc(pc.S) })
+							if !good(d) {
+								return false
 							}
 						}
-					}
-					if okEx == nil || !flagDominates(okEx, ex.Block()) {
-						return false
-					}
-					n := 0
-					for _, pc := range c.pairCases(vex, okEx, nil, nil, 0) {
-						if cv, isC := constBool(pc.E); isC && !cv {
-							continue
-						}
-						n++
-						var d string
-						P.PinnedAll(pc.Pins, func() { d = P.Desc(pc.S) })
-						if !good(d) {
+						if n == 0 {
 							return false
 						}
 					}
-					if n == 0 {
-						return false
+					return true
+				})
+				c.check(okVal, "FACT-EXPORT/VALUE", a.VarName, where, "fact = the complete PackageAnnotations of this package", "exported fact is not the complete annotation set read for this package: "+short(P.Desc(arg)))
+				// guards: no restrictive condition before the export
+				var extra []string
+				for _, l := range P.BlockGuards(ex.Block()) {
+					if nilCheck(l) {
+						continue
 					}
+					if _, t, _ := typeAssertOK(l); t != nil && l.Pos {
+						continue
+					}
+					extra = append(extra, short(l.String()))
 				}
-				return true
-			})
-			c.check(okVal, "FACT-EXPORT/VALUE", a.VarName, where, "fact = the complete PackageAnnotations of this package", "exported fact is not the complete annotation set read for this package: "+short(P.Desc(arg)))
-			// guards: no restrictive condition before the export
-			var extra []string
-			for _, l := range P.BlockGuards(ex.Block()) {
-				if nilCheck(l) {
-					continue
-				}
-				if _, t, _ := typeAssertOK(l); t != nil && l.Pos {
-					continue
-				}
-				extra = append(extra, short(l.String()))
+				c.check(len(extra) == 0, "FACT-EXPORT/UNCONDITIONAL", a.VarName, where, "export is not conditional on the package's content", "fact export depends on "+strings.Join(extra, "; ")+": packages for which it is skipped hide their annotations from importers")
+				// every return is after the export, or is a dead guard (result nil / wrong type)
+				allInstrs(runBody, func(b *ssa.BasicBlock, ins ssa.Instruction) {
+					r, ok := ins.(*ssa.Return)
+					if !ok {
+						return
+					}
+					if dominates(ex.Block(), b) {
+						return
+					}
+					// every path to this return passes the export or takes a dead branch
+					dead := P.BlockCutByOrVia(b, func(l Lit) bool {
+						// also as the negation of a (value, ok) helper's "present and well-typed" conjunction
+						return litImplies(l, func(l Lit) bool {
+							if nilCheck(l) && l.Pos {
+								return true
+							}
+							if _, t, _ := typeAssertOK(l); t != nil && !l.Pos {
+								return true
+							}
+							return false
+						})
+					}, ex.Block())
+					c.check(dead, "FACT-EXPORT/BEFORE-RETURN", a.VarName, P.Pos(r.Pos()), "early return only for an absent/ill-typed reader result (excluded by REQ-RESULT)", "Run can return before the fact is exported")
+				})
 			}
-			c.check(len(extra) == 0, "FACT-EXPORT/UNCONDITIONAL", a.VarName, where, "export is not conditional on the package's content", "fact export depends on "+strings.Join(extra, "; ")+": packages for which it is skipped hide their annotations from importers")
-			// every return is after the export, or is a dead guard (result nil / wrong type)
-			allInstrs(a.RunSSA, func(b *ssa.BasicBlock, ins ssa.Instruction) {
-				r, ok := ins.(*ssa.Return)
-				if !ok {
-					return
-				}
-				if dominates(ex.Block(), b) {
-					return
-				}
-				// every path to this return passes the export or takes a dead branch
-				dead := P.BlockCutByOrVia(b, func(l Lit) bool {
-					// also as the negation of a (value, ok) helper's "present and well-typed" conjunction
-					return litImplies(l, func(l Lit) bool {
-						if nilCheck(l) && l.Pos {
-							return true
-						}
-						if _, t, _ := typeAssertOK(l); t != nil && !l.Pos {
-							return true
-						}
-						return false
-					})
-				}, ex.Block())
-				c.check(dead, "FACT-EXPORT/BEFORE-RETURN", a.VarName, P.Pos(r.Pos()), "early return only for an absent/ill-typed reader result (excluded by REQ-RESULT)", "Run can return before the fact is exported")
-			})
-		}
+		})
 	}
 	c.floor("analyzers with FactTypes", n, 6)
 }
